@@ -85,7 +85,8 @@ class C13(BaseCheck):
           'the real reply path. (3) wire: every 5th batch instead runs a real ThriftMux client from the public '
           'builder (ASCII / non-ASCII / long client ids, per-call deadlines) against the simulated peer, whose '
           'independent decoder must recover client id, deadline, empty dst/dtab and the call from every frame '
-          'actually written. non-trivial = at least one frame decoded; distinct by (kind, '
+          'actually written, and exactly one Tdiscarded per unanswered call that timed out (several in the same '
+          'instant), naming its tag. non-trivial = at least one frame decoded; distinct by (kind, '
           'string classes present, tag classes, reply kinds)')
   ANCHORS = ('scales.thriftmux.serializer:MessageSerializer._WriteContext',
              'scales.thriftmux.serializer:MessageSerializer._Marshal_Tdiscarded',
@@ -95,7 +96,7 @@ class C13(BaseCheck):
   REQUIRED_ANCHORS = ANCHORS
   REQUIRED_CLASSES = ('headers', 'ctx:ascii', 'ctx:utf8', 'ctx:empty', 'ctx:long', 'ctx:none',
                       'deadline', 'client-id', 'reply:OK', 'reply:ERROR', 'reply:NACK', 'reply:Rerr',
-                      'reply:BAD_Rerr', 'tdiscarded', 'wire', 'wire:requests-while-opening')
+                      'reply:BAD_Rerr', 'tdiscarded', 'wire', 'wire:requests-while-opening', 'wire:simultaneous-discards')
   ASSUMPTIONS = ('context keys/values are text; encoded length of each <= 32767 bytes (int16 length field)',
                  'deadline context = (whole-second wall-clock timestamp in ns, absolute deadline in ns), '
                  'deadline compared with 1us tolerance for the float->ns conversion')
@@ -386,8 +387,14 @@ class C13(BaseCheck):
     from vlib.stackworld import StackWorld
     client_id = rng.choice(['client', 'cliént-€', '日本', 'svc.prod', 'x' * 300])
     opening = rng.random() < 0.5      # calls issued while the connection is still opening
+    class Policy(servers.DefaultPolicy):
+      def __call__(self, server, conn, req):
+        a0 = req['call'][1][0] if req.get('call') and req['call'][1] else ''
+        if isinstance(a0, str) and a0.startswith('d'):
+          return {'drop': True}       # never answered: the caller times out and discards
+        return {'delay': 0.001}
     w = StackWorld(env, rng, kind='mux', n_eps=1, timeout=2.0, client_id=client_id,
-                   policy=servers.DefaultPolicy(0.001), open_timeout=0 if opening else None,
+                   policy=Policy(), open_timeout=0 if opening else None,
                    connect_latency=rng.choice([0.02, 0.2]) if opening else 0.0005)
     srv = w.servers[0]
     sent = []
@@ -425,9 +432,35 @@ class C13(BaseCheck):
         out.violate('wire:deadline', 'deadline context undecodable: %r' % e, {})
       if q['call'] != ('echo', rec['args']) or q['dst'] != b'' or q['dtab'] != [] or not (2 <= q['tag'] <= (1 << 24) - 2):
         out.violate('wire:call', 'peer decoded %r tag %r for call echo%r' % (q['call'], q['tag'], rec['args']), {})
+    # discard frames: several calls that are never answered time out (some in the very same
+    # instant, so that their Tdiscarded frames queue up behind each other): the peer's
+    # independent decoder must see exactly one discard per timed-out request, naming its tag
+    n_before = len(srv.requests)
+    doomed = []
+    for burst in range(rng.choice([1, 2])):
+      T = rng.choice([0.03, 0.05])
+      for _ in range(rng.choice([1, 2, 3, 6])):
+        doomed.append(w.call('echo', ('d%d-%d' % (len(w.calls), rng.getrandbits(20)),), timeout=T))
+      env.advance(rng.choice([0.0, 0.004, 0.02]))
+    env.advance(0.5)
+    want = sorted(q['tag'] for q in srv.requests[n_before:]
+                  if q.get('call') and q['call'][1] and str(q['call'][1][0]).startswith('d'))
+    got = sorted(d['discard_tag'] for d in srv.discards)
+    out.obligations += 2
+    if len(want) != len(doomed):
+      out.violate('wire:call', 'the peer decoded %d of the %d unanswered calls' % (len(want), len(doomed)), {'opening': opening})
+    elif got != want:
+      out.violate('wire:discard-tags', 'requests with tags %r timed out on the open connection; the Tdiscarded frames '
+                  'the peer decoded name %r' % (want, got), {'n': len(want)})
+    for d in srv.discards:
+      out.obligations += 1
+      if d['frame_tag'] != 0 or not d['why']:
+        out.violate('wire:discard-frame', 'Tdiscarded frame with tag %r and reason %r' % (d['frame_tag'], d['why']), {})
+    for bf in srv.bad_frames:
+      out.violate('wire:undecodable', 'the peer\'s independent decoder rejected a frame the client wrote: %r' % (bf,), {})
     w.close()
     env.advance(0.1)
-    out.classes = ['wire']
+    out.classes = ['wire', 'wire:discards'] + (['wire:simultaneous-discards'] if len(want) > 1 else [])
     out.nontrivial = len(srv.requests) > 0
     out.extra = {'wire_frames': len(srv.requests)}
     out.sig = ('wire', client_id[:8], len(sent))
